@@ -781,8 +781,7 @@ class Part(object):
             List of Segment objects
 
         """
-        add_segments(self)
-        return [e for e in self.iter_all(Segment, include_subclasses=False)]
+        return list(_get_or_make_segments(self).values())
 
     def quarter_durations(self, start=None, end=None):
         """Return an Nx2 array with quarter duration (second column)
@@ -4554,6 +4553,26 @@ def add_segments(part, force_new=False):
         else:
             return
 
+    for segment, start, end in _make_segments(part):
+        part.add(segment, start, end)
+
+
+def _make_segments(part):
+    """
+    Create the segment objects of a part based on repetition and
+    capo/fine/coda/segno directions, without adding them to the part.
+
+    Parameters
+    ----------
+    part: part
+        A score part
+
+    Returns
+    -------
+    segments: list
+        A list of tuples (Segment, start time, end time), ordered by time
+    """
+    segments = list()
     boundaries = defaultdict(dict)
     destinations = defaultdict(list)
 
@@ -4783,18 +4802,22 @@ def add_segments(part, force_new=False):
             destinations_volta + destinations_no_volta + destinations_navigation1
         )
 
-        part.add(
-            Segment(
-                id=segment_info[start_time]["ID"],
-                to=destinations_cleaned,
-                await_to=destinations_navigation2,  # await_to,
-                force_seq=segment_info[start_time]["force_full_sequence"],
-                type=segment_info[start_time]["type"],
-                info=", ".join(segment_info[start_time]["info"]),
-            ),
-            segment_info[start_time]["start"],
-            segment_info[start_time]["end"],
+        segments.append(
+            (
+                Segment(
+                    id=segment_info[start_time]["ID"],
+                    to=destinations_cleaned,
+                    await_to=destinations_navigation2,  # await_to,
+                    force_seq=segment_info[start_time]["force_full_sequence"],
+                    type=segment_info[start_time]["type"],
+                    info=", ".join(segment_info[start_time]["info"]),
+                ),
+                segment_info[start_time]["start"],
+                segment_info[start_time]["end"],
+            )
         )
+
+    return segments
 
 
 def get_segments(part):
@@ -4815,12 +4838,27 @@ def get_segments(part):
     return {seg.id: seg for seg in part.iter_all(Segment)}
 
 
+def _get_or_make_segments(part):
+    """
+    Get the dictionary of segment objects of a part (see `get_segments`)
+    without modifying the part: if no segments were added to the part (see
+    `add_segments`), they are created on the fly. Segments created this way
+    refer to the time points of the part but are not registered in them.
+    """
+    segments = get_segments(part)
+    if len(segments) == 0:
+        for segment, start, end in _make_segments(part):
+            segment.start = part.get_point(start)
+            segment.end = part.get_point(end)
+            segments[segment.id] = segment
+    return segments
+
+
 def pretty_segments(part):
     """
     Get a pretty string of all the segments in a part.
     """
-    add_segments(part)
-    segments = get_segments(part)
+    segments = _get_or_make_segments(part)
     string_list = [
         str(segments[p].id)
         + " -> (choice) "
@@ -5095,8 +5133,7 @@ def get_paths(part, no_repeats=False, all_repeats=False, ignore_leap_info=True):
         A list of path objects
 
     """
-    add_segments(part)
-    segments = get_segments(part)
+    segments = _get_or_make_segments(part)
     paths = list()
     unfold_paths(
         Path([chr(65)], segments, no_repeats=no_repeats, all_repeats=all_repeats),
